@@ -4,6 +4,7 @@ import (
 	"encoding/json"
 	"fmt"
 	"math/big"
+	"strings"
 
 	"verif/internal/ev"
 	"verif/ref"
@@ -14,6 +15,7 @@ import (
 func init() {
 	Registry["C14"] = C14
 	Replayers["c14-case"] = replayC14
+	Replayers["c14-big"] = replayC14Big
 }
 
 type c14Case struct {
@@ -58,10 +60,53 @@ func replayC14(c json.RawMessage) (bool, string) {
 	return got.Cmp(want) != 0, fmt.Sprintf("got %v want %v", got, want)
 }
 
+// E3: fields far from the start of a large buffer.  The buffer is boundary+16
+// bytes of a position-dependent fill (so bytes 65536 apart, 2^24 apart ... differ)
+// or its complement; the reference looks only at the window round the field.
+type c14Big struct {
+	Boundary int  `json:"boundary_bytes"`
+	Invert   bool `json:"fill_inverted"`
+	Pos      int  `json:"pos"`
+	Width    int  `json:"width"`
+	Signed   bool `json:"signed"`
+}
+
+func c14BigBuf(boundary int, invert bool) []byte {
+	b := make([]byte, boundary+16)
+	for i := range b {
+		v := byte(i*131) ^ byte(i>>8)*29 ^ byte(i>>16)*71 ^ byte(i>>24)*113 ^ byte(i>>13)
+		if invert {
+			v = ^v
+		}
+		b[i] = v
+	}
+	return b
+}
+
+// c14BigCheck compares one extraction with the reference applied to the few
+// bytes that hold the field.
+func c14BigCheck(buf []byte, k c14Big) (bad bool, got, want string) {
+	g, p := c14Eval(buf, k.Pos, k.Width, k.Signed)
+	first := k.Pos / 8
+	last := (k.Pos + k.Width - 1) / 8
+	w := c14Ref(buf[first:last+1], k.Pos-8*first, k.Width, k.Signed)
+	if p != "" {
+		return true, "panic " + p, w.String()
+	}
+	return g.Cmp(w) != 0, g.String(), w.String()
+}
+
+func replayC14Big(c json.RawMessage) (bool, string) {
+	var k c14Big
+	json.Unmarshal(c, &k)
+	bad, got, want := c14BigCheck(c14BigBuf(k.Boundary, k.Invert), k)
+	return bad, fmt.Sprintf("got %v want %v", got, want)
+}
+
 // C14: bit-field extraction against a big-integer / shift-and-mask reference.
 func C14(r *ev.Run) {
 	thorough := r.Tier == "thorough"
-	r.Rule = "E1: every bit pattern of a 2-byte (quick) / 3-byte (thorough) buffer x every (pos,width) inside it, unsigned and signed, vs shift-and-mask on the whole integer; E2: widths 1..64 x pos 0..23 x buffer sized exactly to the field and a 12-byte buffer x {all0, all1, walking 1, walking 0, every pair of set bits, field-ones/outside-zero, field-zero/outside-ones, top bit only, two alternating patterns} vs math/big; non-trivial distinct = distinct (width,pos,signedness,pattern class) combinations"
+	r.Rule = "E1: every bit pattern of a 2-byte (quick) / 3-byte (thorough) buffer x every (pos,width) inside it, unsigned and signed, vs shift-and-mask on the whole integer; E2: widths 1..64 x pos 0..23 x buffer sized exactly to the field and a 12-byte buffer x {all0, all1, walking 1, walking 0, every pair of set bits, field-ones/outside-zero, field-zero/outside-ones, top bit only, two alternating patterns} vs math/big; E3: buffers of 2^8, 2^13, 2^16, 2^21, 2^24 (thorough: 2^28, 2^29) + 16 bytes with a position-dependent fill and its complement x every position in the 11 bytes round that byte index x every width, unsigned and signed, vs the reference applied to the bytes that hold the field (index arithmetic far from the start of the buffer); non-trivial distinct = distinct (width,pos,signedness,pattern class) combinations"
 	r.Assumptions = []string{"reads before the field cannot be observed directly; influence of outside bits is checked by the complement patterns; reads past the end are caught by the exactly-sized buffers (they panic)"}
 	fail := func(buf []byte, pos, width int, signed bool, got, want interface{}, kind string) {
 		s := "unsigned"
@@ -194,7 +239,49 @@ func C14(r *ev.Run) {
 			r.Sample(map[string]interface{}{"enumeration": "E2", "pos": pos, "width": w, "exact_buffer_bytes": exact, "patterns_per_buffer": "see rule"})
 		}
 	})
-	r.States = int64(len(pws))*2 + int64(total)
+	// E3 — large buffers: every field that touches the 9 bytes before or the byte
+	// after a byte index of 2^8, 2^13 (bit 2^16), 2^16, 2^21 (bit 2^24), 2^24
+	// (thorough: 2^28 = bit 2^31, 2^29 = bit 2^32)
+	bounds := []int{1 << 8, 1 << 13, 1 << 16, 1 << 21, 1 << 24}
+	if thorough {
+		bounds = append(bounds, 1<<28, 1<<29)
+	}
+	for _, bd := range bounds {
+		for _, inv := range []bool{false, true} {
+			buf := c14BigBuf(bd, inv)
+			positions := 8 * 11
+			parallelFor(positions, func(pi int) {
+				pos := 8*(bd-9) + pi
+				var calls int64
+				for w := 1; w <= 64 && pos+w <= 8*len(buf); w++ {
+					for _, signed := range []bool{false, true} {
+						if signed && w < 2 {
+							continue
+						}
+						k := c14Big{bd, inv, pos, w, signed}
+						calls++
+						if bad, got, want := c14BigCheck(buf, k); bad {
+							s, kind := "unsigned", "mismatch"
+							if signed {
+								s = "signed"
+							}
+							if strings.HasPrefix(got, "panic") {
+								kind = "panic"
+							}
+							r.Violate(ev.Violation{Fingerprint: fmt.Sprintf("C14 %s %s far-from-buffer-start boundary=%d", s, kind, bd),
+								What: fmt.Sprintf("%s extraction of %d bits at bit %d of a %d-byte buffer", s, w, pos, len(buf)),
+								Case: k, Expected: want, Actual: got, ReplayKind: "c14-big"})
+						}
+					}
+				}
+				r.Count(calls, 0, calls, calls)
+				r.Distinct(fmt.Sprintf("big/%d/%d", bd, pi))
+			})
+		}
+	}
+	r.Extra["E3_boundaries_bytes"] = bounds
+	r.Sample(map[string]interface{}{"enumeration": "E3", "boundary_bytes": 65536, "pos": 8*65536 - 3, "width": 38})
+	r.States = int64(len(pws))*2 + int64(total) + int64(len(bounds))*2*88
 	r.Exhaustive = true
 	r.Outcome("match")
 }
